@@ -234,6 +234,13 @@ let h_hist (a : string array) : string =
       Buffer.add_string out (Printf.sprintf " X live=%d" (int_of_nat (live_count !heap)))
     end
   with Model_err e -> Buffer.add_string out ("MODELERR=" ^ e));
+  (* theorem coverage (a trailing @tag is stripped and counted by tools/check.py, never compared): does this history satisfy the
+     boolean hypothesis accepted_rules of C06_history_extracted / C07_balanced_extracted, i.e. is its whole run — results, heap,
+     ledger — a consequence of the theorem?  Only failure-free histories of modelled calls can. *)
+  (if a.(2) = "0" && ops <> [] && List.for_all (fun s -> external_op s = None) ops then
+     match (try Some (List.map parse_op ops) with _ -> None) with
+     | Some os -> Buffer.add_string out (if accepted_rules os then " @under-theorem:C06_history_extracted" else " @outside-theorem:C06_history_extracted")
+     | None -> ());
   Buffer.contents out
 
 let handlers : (string * (string array -> string)) list = [
